@@ -410,6 +410,11 @@ def _check(prop, tier, seed, repo, vacuity=True, update_baseline=False):
             "native_bounded_fallback": native_fb,
             "explanation": cfg.get("explanation", ""),
             "clauses_not_decided": cfg.get("not_decided", []),
+            # functions the property depends on that are NOT under contract: their text is pinned by a hash; a change makes
+            # the run undecided and hands over to the bounded stand-in (unit-level watches are in extraction_rewrites, rule "watch")
+            "watched_not_under_contract": [{"file": f_, "selector": sel_, "recorded_sha": sha_} for f_, sel_, sha_ in cfg.get("watch", [])],
+            # contracts that restate the shape the code builds today: failing ones make the run undecided, not a violation
+            "shape_pins": cfg.get("pin_functions", {}),
         },
         "assumptions": cfg.get("assumptions", []),
         "wall_s": round(wall, 2),
